@@ -77,7 +77,7 @@ static std::vector<Fn> fns() {
                [](const P& p, const uint8_t* a, const uint8_t*, uint8_t* o) { auto* t = new_reim_from_znx64_precomp(p.m, p.log2bound); reim_from_znx64(t, o, (const int64_t*)a); free(t); }, 1, 0});
   v.push_back({"reim_to_znx64_simple", 1, 1, 0, 2, 2,
                [](const P& p, const uint8_t* a, const uint8_t*, uint8_t* o) { reim_to_znx64_simple(p.m, p.divisor, p.log2bound, (int64_t*)o, a); },
-               [](const P& p, const uint8_t* a, const uint8_t*, uint8_t* o) { auto* t = new_reim_to_znx64_precomp(p.m, p.divisor, p.log2bound); reim_to_znx64(t, (int64_t*)o, a); free(t); }, 0, 0});
+               [](const P& p, const uint8_t* a, const uint8_t*, uint8_t* o) { auto* t = new_reim_to_znx64_precomp(p.m, p.divisor, p.log2bound); reim_to_znx64(t, (int64_t*)o, a); free(t); }, 4, 0});
   v.push_back({"cplx_from_znx32_simple", 0, 0, 0, 1, 2,
                [](const P& p, const uint8_t* a, const uint8_t*, uint8_t* o) { cplx_from_znx32_simple(p.m, o, (const int32_t*)a); },
                [](const P& p, const uint8_t* a, const uint8_t*, uint8_t* o) { auto* t = new_cplx_from_znx32_precomp(p.m); cplx_from_znx32(t, o, (const int32_t*)a); free(t); }, 2, 0});
@@ -129,6 +129,7 @@ STREAM(ca_prog) {
           case 1: xi = rng.sbits(49); memcpy(&a[8 * i], &xi, 8); break;
           case 2: { int32_t t = (int32_t)rng.next(); memcpy(&a[4 * i], &t, 4); break; }
           case 3: x = (double)rng.sbits(17) * p.divisor + (double)rng.sbits(20) / 1048576.0; memcpy(&a[8 * i], &x, 8); break;
+          case 4: x = (rng.below(2) ? ((double)rng.sbits(20) + 0.5) * p.divisor : (double)rng.sbits(30) / 1024.0 + 1.0 / 3.0); memcpy(&a[8 * i], &x, 8); break;  // exact ties k+1/2
           default: x = (double)rng.sbits(30) / 1024.0 + 1.0 / 3.0; memcpy(&a[8 * i], &x, 8); break;
         }
         y = (double)rng.sbits(30) / 4096.0 + 1.0 / 7.0;  // not exactly representable products: fused and unfused roundings differ
